@@ -4,7 +4,8 @@ Domain   G-PROG programs x all 8 configurations, plus the repository's test scri
          pool programs as seed corpus.
          Plus the SPECIALISED DOMAINS: the quick-tier case sets of the engines whose cases are whole
          programs decided by this same oracle (C05 control-flow skeletons, C06 scope trees, C07
-         evaluation-order templates, C13 assignment families), under a seed of their own.
+         evaluation-order templates, C13 assignment families), under a seed of their own; C11/C12
+         programs under the plain oracle; G-NEST, the deterministic sweep of construct interactions.
 Oracle   stdout equality; canonical equality of every user global; added names restricted to
          __ol_* / itertools / importlib; any exception from conversion or evaluation fails.
 """
@@ -26,7 +27,10 @@ RULE = ("programs are drawn by the typed, scope-aware generator G-PROG (Hypothes
         "the C05/C06/C07/C13 engines (whole programs, same oracle) are run under a derived seed; "
         "their classes are reported with the engine's prefix and their own non-triviality rule; the "
         "function templates of C11 and a seeded stride of the class-skeleton product of C12 run as plain "
-        "programs (2 configurations by rotation).")
+        "programs (2 configurations by rotation). Interactions (G-NEST): every construct inside every "
+        "other one - 19 containers x 19 containers x 25 items, 19 containers x 25 x 25 adjacent items, "
+        "four containers deep x 25 items; 2 probe schedules, one configuration by rotation (thorough: 3 "
+        "schedules, all 8).")
 
 # engines whose cases are whole programs compared by oracle.check_program / kit.compare_obs, i.e.
 # by exactly what C01 states (a probe is a print the user could have written)
@@ -54,6 +58,41 @@ def _plain_shard(item):
     return part
 
 
+def _nest_shard(item):
+    """G-NEST: container[container[item]] / container[item; item] / four containers deep"""
+    from ..gen import nest
+    from ..kit import Kit
+    idx, nshards, all8 = item
+    part = new_part()
+    cases = list(nest.triples()) + list(nest.item_pairs()) + list(nest.deep())
+    for k in range(idx, len(cases), nshards):
+        cs, its = cases[k]
+        src = nest.build(cs, its)
+        if src is None:
+            part["discarded"]["nest:item-does-not-fit-the-hole"] += 1
+            continue
+        for sched in ((0, 2, 5) if all8 else (0, 2)):
+            o = run_code(src, "exec", Kit(sched, 200000))
+            if not o["ok"]:
+                part["discarded"]["nest:original-raises:%s" % o["err"]] += 1
+                continue
+            part["evaluations"] += 1
+            part["classes"]["nest:%d-containers-%d-items" % (len(cs), len(its))] += 1
+            part["nontrivial"].add(key_hash(cs, its, sched))
+            cfgs = env.ALL_CFGS if all8 else [env.ALL_CFGS[(k + sched) % 8]]
+            status, failures, _ = check_program(src, cfgs, sched, orig=o)
+            if status == "fail":
+                cfg, diffs, text = failures[0]
+                if len(part["violations"]) < 3:
+                    part["violations"].append({"payload": program_payload(src, cfg, sched), "diffs": diffs,
+                                               "what": "[interaction %s > %s] behaves differently after conversion (%s)"
+                                                       % (" > ".join(cs), " ; ".join(its), env.cfg_name(cfg))})
+                break
+    if idx == 0:
+        part["samples"].append(nest.build(("closure", "for_break"), ("return_cond",)))
+    return part
+
+
 def plain_programs(report):
     from . import c11, c12
     quick = report.tier == "quick"
@@ -66,6 +105,8 @@ def plain_programs(report):
         progs.append(("c12:class-case", c12.PRE + c12.place(c12.class_source(bk, mk, kk, dk, ms), where), i))
     n = env.NPROC * 2
     for part in env.pmap(_plain_shard, [progs[i::n] for i in range(n)]):
+        report.absorb(part)
+    for part in env.pmap(_nest_shard, [(i, n, not quick) for i in range(n)]):
         report.absorb(part)
 
 
